@@ -146,11 +146,9 @@ class DBWorld:
 
 def decode_state(data):
     f = io.BytesIO(data)
-    u = pickle.Unpickler(f)
+    u = pickle.Unpickler(f)     # one unpickler: the memo is shared
     u.persistent_load = lambda pid: ('ref', pid)
     u.load()
-    u = pickle.Unpickler(f)
-    u.persistent_load = lambda pid: ('ref', pid)
     return u.load()
 
 
